@@ -29,7 +29,7 @@ def instances(tier):
     out = []
     now = 1
     strat_sets = [lambda i: [[3, 1]], lambda i: [[2 + i % 2, 1]], lambda i: [[2, 2], [4, 1]] if i % 2 == 0 else [[3, 1]]]
-    worker_sets = [[1], [2], [1, 1], [2, 1]] if tier == "thorough" else [[1], [2], [2, 1]]
+    worker_sets = [[1], [2], [1, 1], [2, 1]]
     deadline_sets = {"tight": lambda i: now + 4 + 3 * i, "backtoback": lambda i: 9, "loose": lambda i: 12}
     for ws in worker_sets:
         for si, sf in enumerate(strat_sets):
